@@ -3327,7 +3327,9 @@ Boolean PushSymbol(tStrComp const* pSymName, tStrComp const* pStackName) {
 
     Elem             = (PSymbolStackEntry)malloc(sizeof(TSymbolStackEntry));
     Elem->Next       = LStack->Contents;
-    Elem->Contents   = pSrc->SymWert;
+    /* a copy of its own: a string value is freed when the symbol is set again */
+    as_tempres_ini(&Elem->Contents);
+    as_tempres_copy(&Elem->Contents, &pSrc->SymWert);
     LStack->Contents = Elem;
 
     return True;
@@ -3373,8 +3375,9 @@ Boolean PopSymbol(tStrComp const* pSymName, tStrComp const* pStackName) {
         return False;
     }
 
-    Elem             = LStack->Contents;
-    pDest->SymWert   = Elem->Contents;
+    Elem = LStack->Contents;
+    as_tempres_copy(&pDest->SymWert, &Elem->Contents);
+    as_tempres_free(&Elem->Contents);
     LStack->Contents = Elem->Next;
     if (!LStack->Contents) {
         if (!PStack) {
@@ -3402,6 +3405,7 @@ void ClearStacks(void) {
         while (Act->Contents) {
             Elem          = Act->Contents;
             Act->Contents = Elem->Next;
+            as_tempres_free(&Elem->Contents);
             free(Elem);
             z++;
         }
